@@ -6,7 +6,9 @@ from tools import hydro, vlib
 class C32(C30):
     props_vo = "theories/Props/C32.vo"
     theorems = ["C32_max", "C32_min", "C32_extremum_any_ord", "C32_count", "C32_first", "C32_last",
-                "C32_is_empty", "C32_value_counts", "C32_weaken"]
+                "C32_is_empty", "C32_value_counts", "C32_weaken",
+                "C32_keyed_singleton_invariant_fold", "C32_keyed_singleton_invariant_reduce",
+                "C32_into_singleton", "C32_get_max_key", "C32_repeat_with_keys"]
     prop = "C32"
     rule = ("per C32 flow (operator behind a trusted call site, input cast to the weakest type it accepts): base "
             "batches of <= 5 items; ALL permutations (ordering sites; sampled to 40 in the quick tier when > 40), random "
@@ -16,32 +18,44 @@ class C32(C30):
     assumptions = ["duplication model: NoOrder+AtLeastOnce = any list with the same set of elements; TotalOrder+AtLeastOnce = "
                    "stuttering (in-place repetition); arbitrary late re-delivery on an ordered stream is outside the model "
                    "(Example C32_last_needs_stutter shows `last` would not be invariant under it)",
-                   "4 call sites (repeat_with_keys, into_singleton x2, get_max_key) are listed as unproved: their justification "
-                   "needs the upstream invariant that keyed-singleton keys are distinct; get_max_key is exercised dynamically",
+                   "4 call sites (repeat_with_keys, into_singleton x2, get_max_key) are proved under the keyed-singleton invariant "
+                   "(distinct keys), itself proved for the emitted keyed fold / reduce states; other producers of keyed singletons "
+                   "(e.g. cast_at_most_one_entry_per_key) are not modelled",
                    "the hash iteration order of keyed singletons cannot be controlled by the harness"]
 
     def flows(self):
         return [f for f in hydro.PERTURB]
 
     def gen(self, rng, tier, n):
+        self.translate()
         fl = self.flows()
         return hydro.corpus_cases("C32") + hydro.emit_cases(fl) + hydro.gen_trusted_cases(rng, tier, fl)
 
     def to_coq(self, case, res):
         flow = case["flow"]
         if case.get("k") == "syntax":
+            if flow in hydro.HAND_ONLY_C32:
+                return 0  # per-batch function flows: no emission table entry
             if flow == "u_is_empty":
                 if not isinstance(res, dict) or "syntax" not in res:
                     return 1
                 return "(chk_toks u_is_empty_emit [%s])" % "; ".join(
                     vlib.g_string(t) + "%string" for t in hydro.op_tokens(res["syntax"]))
-            return hydro.emit_term(flow, res, fn="chk_bemit")
+            tr = self.translate()
+            return 1 if flow in tr.failed else hydro.emit_term_named(flow, tr.name(flow), res, fn="chk_bemit")
         if hydro.broken(res) or len(res["ticks"]) != len(case["ticks"]):
             return 3
         base = dict(case, ticks=case["base"])
         if flow == "u_is_empty":
             return "(chk_fun u_is_empty_fun %s %s %s)" % (hydro.g_ticks(case), hydro.g_ticks(base), hydro.g_impl(res))
-        return "(chk29_perm %s %s %s %s)" % (flow, hydro.g_ticks(case), hydro.g_ticks(base), hydro.g_impl(res))
+        if flow == "u_into_singleton":
+            impl = "[" + "; ".join("[" + "; ".join(hydro.g_vec(v) for v in t["out"]) + "]" for t in res["ticks"]) + "]"
+            return "(chk_fun u_into_singleton_fun %s %s %s)" % (hydro.g_ticks(case), hydro.g_ticks(base), impl)
+        if flow == "u_repeat_with_keys":
+            return "(chk_fun2 false u_repeat_fun %s %s)" % (hydro.g_ticks(case), hydro.g_impl(res))
+        tr = self.translate()
+        term = "(chk29_perm %s %s %s %s)" % (tr.name(flow), hydro.g_ticks(case), hydro.g_ticks(base), hydro.g_impl(res))
+        return tr.wrap(flow, case, term)
 
     def shrink(self, case):
         return []
@@ -63,7 +77,7 @@ class C32(C30):
                             "(invariance of the operator's list function under every permutation / admissible duplication); "
                             "%d are type-level no-ops or forwarding helpers, %d are listed but NOT proved (distinct-keys invariant), "
                             "%d are test code. The call-site list is regenerated from hydro_lang/src/live_collections/** on every run; "
-                            "an unmodelled site fails the check. Correspondence: 8 flows through the production embedded builder under "
+                            "an unmodelled site fails the check. Correspondence: 10 flows through the production embedded builder under "
                             "all permutations / duplications of <= 5 items." %
                             (by.get("proved", 0), len(rows), by.get("noop", 0) + by.get("forward", 0),
                              by.get("unproved", 0), by.get("test", 0)))
